@@ -133,7 +133,15 @@ def _real_doc1(content: str, raw: bool):
         except (SyntaxError, ValueError):
             return None
     if len(tree.body) == 1 and isinstance(tree.body[0], ast.Expr) and isinstance(tree.body[0].value, ast.Constant) and isinstance(tree.body[0].value.value, str):
-        return tree.body[0].value.value
+        import io
+        import tokenize
+
+        try:
+            n_str = sum(1 for t in tokenize.generate_tokens(io.StringIO(src).readline) if t.type == tokenize.STRING)
+        except (tokenize.TokenError, IndentationError):
+            return None
+        if n_str == 1:  # `""" """" """` compiles as three implicitly concatenated literals: the text left the docstring
+            return tree.body[0].value.value
     return None
 
 
